@@ -75,6 +75,107 @@ def ref_cmp_text(a, b):
 def has_big_run(text):
     return any(int(d) > I32_MAX for d in re.findall(r"[0-9]+", text))
 
+def _runs(s):
+    """alternating (non-digit run, digit run) pairs of a version component, as debversion walks it"""
+    out = []; i = 0
+    while i < len(s):
+        j = i
+        while j < len(s) and not (s[j].isascii() and s[j].isdigit()): j += 1
+        k = j
+        while k < len(s) and s[k].isascii() and s[k].isdigit(): k += 1
+        out.append((s[i:j], s[j:k])); i = k
+    return out
+
+def _part_panics(a, b):
+    """does debversion 0.4.4's version_cmp_part(a, b) reach a digit run above i32::MAX?
+    None = no (with the comparison result: True = decided / equal), walks chunk by chunk"""
+    ra, rb = _runs(a), _runs(b)
+    for i in range(max(len(ra), len(rb))):
+        na, da = ra[i] if i < len(ra) else ("", "")
+        nb, db = rb[i] if i < len(rb) else ("", "")
+        if verrevcmp(na, nb) != 0:
+            return (False, False)            # decided on the non-digit run: no panic, not equal
+        if (da and int(da) > I32_MAX) or (db and int(db) > I32_MAX):
+            return (True, False)
+        if int(da or "0") != int(db or "0"):
+            return (False, False)
+    return (False, True)
+
+def cmp_panics(a_text, b_text):
+    """debversion 0.4.4: does comparing these two version texts panic (i32 digit run REACHED)?"""
+    pa, pb = ref_parse(a_text), ref_parse(b_text)
+    if pa is None or pb is None:
+        return False
+    if (pa[0] or 0) != (pb[0] or 0):
+        return False
+    panics, equal = _part_panics(pa[1], pb[1])
+    if panics: return True
+    if not equal: return False
+    return _part_panics(pa[2] or "0", pb[2] or "0")[0]
+
+REL_VER_RE = re.compile(r"([A-Za-z0-9.+~-]+)\s*(?::\s*[A-Za-z0-9.+~-]+)?\s*\(\s*([<>=]*)\s*([A-Za-z0-9.+~:-]+)\s*\)")
+def i32_pair_in_text(text):
+    """impl Ord for Relation compares two versions only when the names and the operators are equal:
+    is there such a pair of alternatives in the text whose comparison reaches a digit run above i32::MAX?
+    (used by C13: which pairs a sort compares is the algorithm's business)"""
+    text = re.sub(r"(?m)^[A-Za-z][A-Za-z0-9-]*:(?=\s)", "", text)      # field names of a control file
+    alts = [(m.group(1), m.group(2), m.group(3)) for m in REL_VER_RE.finditer(text)]
+    for i in range(len(alts)):
+        for j in range(i + 1, len(alts)):
+            a, b = alts[i], alts[j]
+            if a[0] == b[0] and a[1] == b[1] and (cmp_panics(a[2], b[2]) or cmp_panics(b[2], a[2])):
+                return True
+    return False
+
+def unreadable_version_in_text(text):
+    """an alternative whose version text debversion rejects (epoch above u32::MAX)"""
+    return any(ref_parse(m.group(3)) is None for m in REL_VER_RE.finditer(text))
+
+def panic_reason(struct, lookup, lossless_text):
+    """Walks a field the way the evaluators do (all over entries, any over alternatives, both
+    short-circuiting) and says why the first panic happens, if one does:
+      'op'     lossless, field read from text: the operator is none of the five (Relation::version unwraps)
+      'epoch'  lossless, field read from text: debversion rejects the version text (epoch above u32::MAX)
+      'i32'    any evaluator: the comparison reaches a digit run above i32::MAX (debversion 0.4.4)
+    [lossless_text] = the evaluator is the lossless one on a tree the reader produced (only there can
+    an unreadable operator or version exist)."""
+    for e in struct:
+        sat = False
+        for (name, ver) in e:
+            inst = lookup(name)
+            if ver is not None:
+                if ver[0] not in OPS:
+                    return "op" if lossless_text else "untyped"
+                if ref_parse(ver[1]) is None:
+                    return "epoch" if lossless_text else "untyped"
+                if inst is None:
+                    continue
+                if cmp_panics(inst, ver[1]):
+                    return "i32"
+                if op_holds(ver[0], ref_cmp_text(inst, ver[1])):
+                    sat = True; break
+            elif inst is not None:
+                sat = True; break
+        if not sat:
+            return None
+    return None
+
+ALT_RE = re.compile(r"^\s*([A-Za-z0-9.+~-]+)\s*(?::\s*[A-Za-z0-9.+~-]+)?\s*(?:\(\s*([<>=]*)\s*([A-Za-z0-9.+~:-]+)\s*\))?")
+def struct_of_text(text):
+    """names / operators / version texts of a field the strict reader accepted, in order; None when the
+    text does not have that shape (used only to classify a panic)"""
+    struct = []
+    for ent in text.split(","):
+        if ent.strip(" \t\r\n") == "":
+            continue
+        alts = []
+        for alt in ent.split("|"):
+            m = ALT_RE.match(alt)
+            if not m: return None
+            alts.append((m.group(1), None if m.group(3) is None else (m.group(2), m.group(3))))
+        struct.append(alts)
+    return struct
+
 def op_holds(op, c):
     return {"<<": c < 0, "<=": c <= 0, "=": c == 0, ">=": c >= 0, ">>": c > 0}[op]
 
@@ -156,6 +257,7 @@ VER_CORPUS = [
     "20240101", "0~20240101", "1.0-1.1", "1.0-1.", "1.0-.1", "1.0-~1", "1.0-a", "1.0-+", "1.0-00", "1.0-01",
 ]
 VER_BAD = ["", " ", "1 0", "1_0", "1/0", "é", "1.0é", "-", ":", "1:", ":1", "1:-", "1.0-", "a b", "1.0\n", "\n1.0", "١", "١:1", "1:١"]
+VER_UNREADABLE = ["4294967296:1", "9999999999:1.0-1", "99999999999999999999:0"]   # lexable, but no debversion::Version
 VER_BIG = ["2147483648", "1.2147483648", "0~20240101123456", "1.0-20240101123456", "99999999999999999999", "1.02147483648", "1.000000000002147483647"]
 
 PIECES = ["0", "1", "2", "9", "10", "09", "007", "123", "2147483647", "a", "b", "z", "A", "rc", "dfsg", "~", "~~", "+", ".", ".", ".", "-", ":"]
@@ -218,7 +320,7 @@ def vercmp_cases(tier, rng, prefix="v"):
     for a in small:
         for b in small:
             add(a, b)
-    n = {"quick": 100000, "search": 150000, "thorough": 2000000}[tier]
+    n = {"quick": 50000, "search": 100000, "thorough": 2000000}[tier]
     for _ in range(n):
         a = gen_version(rng)
         b = mutate_version(rng, a) if rng.random() < 0.6 else gen_version(rng)
@@ -254,7 +356,7 @@ def decision_table(tier, rng):
     for shape in [(1,), (2,), (1, 1)]:
         for combo in itertools.product(cells, repeat=sum(shape)):
             out.append(mk(shape, combo, len(out)))
-    n22 = {"quick": 40000, "search": 60000}.get(tier)
+    n22 = {"quick": 15000, "search": 40000}.get(tier)
     if n22 is None:
         for combo in itertools.product(cells, repeat=4):
             out.append(mk((2, 2), combo, len(out)))
@@ -318,12 +420,12 @@ def sat_cases(tier, rng, prefix="s"):
     add([[("python3-dulwich", (">=", "0.19.0"))], [("python3-requests", None)], [("python3-urllib3", ("<<", "1.26.0"))]],
         [("python3-dulwich", "0.19.0"), ("python3-requests", "2.25.1"), ("python3-urllib3", "1.25.11")])
     add([[("a", ("=", "1.0"))]], [("a", "1.0-0")])
-    add([[("a", ("=", "1:1.0"))]], [("a", "1:1.0")])                   # epoch: lossless reader rejects the text
+    add([[("a", ("=", "1:1.0"))]], [("a", "1:1.0")])                   # epoch: read by both readers since /repo 0eb8794
     add([[("a", (">>", "1.0~rc1"))], [("b", None), ("c", ("<=", "2"))]], [("a", "1.0"), ("c", "2")])
     add([[]], [("a", "1")])                                             # an entry without alternatives: never satisfied
     add([[("a", None)], []], [("a", "1")])
     add([[("a", None), ("a", ("<<", "1"))]], [("a", "1")])
-    n = {"quick": 80000, "search": 120000, "thorough": 1000000}[tier]
+    n = {"quick": 30000, "search": 80000, "thorough": 1000000}[tier]
     for i in range(n):
         epochs = rng.random() < 0.25
         struct = gen_struct(rng, epochs=epochs)
@@ -352,6 +454,16 @@ def sat_known_cases(tier, rng, prefix="k"):
         add([[("a", (">=", big))]], [])
         add([[("b", None), ("a", (">=", big))]], [("b", "1"), ("a", "1")])
         add([[("a", ("=", big))]], [("a", big)])
+    for bad in VER_UNREADABLE:                                        # debversion rejects: epoch above u32::MAX
+        add([[("a", (">=", bad))]], [("a", "1.0")])
+        add([[("a", (">=", bad))]], [])
+        add([[("b", None), ("a", ("=", bad))]], [("b", "1")])         # short-circuit: never reached
+        add([[("a", ("<<", bad)), ("b", None)]], [("b", "1")])
+    # a big digit run that is present but never compared, or decided before it is reached: no panic
+    add([[("a", (">=", "2147483648"))]], [("b", "1")])
+    add([[("a", (">=", "2.2147483648"))]], [("a", "1.0")])
+    add([[("a", (">=", "1.0"))]], [("a", "0.99999999999")])
+    add([[("a", ("=", "1:99999999999"))]], [("a", "2:1")])
     n = {"quick": 300, "search": 300, "thorough": 3000}[tier]
     for _ in range(n):
         struct = gen_struct(rng, epochs=False, ops=OPS + BAD_OPS[:4])
@@ -373,9 +485,7 @@ def struct_of_gen_entries(entries):
         if e[0] == "empty": continue
         alts = []
         for st in e[1]:
-            v = st["version"]
-            if v is not None and ":" in v[1]: return None
-            alts.append((st["name"], v))
+            alts.append((st["name"], st["version"]))
         struct.append(alts)
     return struct
 
@@ -389,10 +499,15 @@ def sat_text_cases(tier, rng, prefix="t"):
     base = list(TEXT_INSTALLED)
     for s in gen.corpus_files("rel") + gen.repo_rel_corpus():
         add(s, base); add(s, [])
+    # the finding classes and their neighbourhood, with free white space
+    for t in ["a (>= 4294967296:1)", "a ( >= 4294967296:1 )", "b | a (= 9999999999:1)", "a (<< 4294967295:1)", "a (>= 4294967296:1) | b",
+              "a (> 1)", "a ( >1)", "a (1)", "a (== 1)", "b | a (<> 1)", "a (>= 0~20240101123456)", "libc6 (>= 2147483648)",
+              "a (>= 1:2.0)", "a (= 1:1)", "0ad (>= 1:2.0~rc1-3), a (<< 2:0)", "a (>= 1::2)", "a (= :1)"]:
+        add(t, base); add(t, [("a", "1:2.0"), ("b", "1"), ("0ad", "1:2.0")]); add(t, [("a", "0~20240101123457")])
     nx = {"quick": 3, "search": 3, "thorough": 4}[tier]
     for s in gen.exhaustive(gen.REL_ALPHABET, nx):
         add(s, base)
-    n = {"quick": 40000, "search": 60000, "thorough": 500000}[tier]
+    n = {"quick": 20000, "search": 50000, "thorough": 500000}[tier]
     for _ in range(n):
         t, entries = gen.gen_rel_field(rng, substvars=rng.random() < 0.3, empty_entries=rng.random() < 0.3)
         asg = [kv for kv in base if rng.random() < 0.6]
